@@ -117,11 +117,16 @@ Proof.
   intros Hc. induction n as [|n IH]; intros s Hl.
   - destruct s; [reflexivity|simpl in Hl; lia].
   - destruct s as [|x [|y s']]; try reflexivity.
-    cbn [unescape]. destruct (matches p_QUOTED_PAIR_RE [x; y]) eqn:E.
+    assert (L1 : (List.length s' <= n)%nat) by (cbn [List.length] in Hl; lia).
+    assert (L2 : (List.length (y :: s') <= n)%nat) by (cbn [List.length] in *; lia).
+    pose proof (IH s' L1) as I1. pose proof (IH (y :: s') L2) as I2.
+    change (unescape (x :: y :: s')) with
+      (if matches p_QUOTED_PAIR_RE [x; y] then y :: unescape s' else x :: unescape (y :: s')).
+    destruct (matches p_QUOTED_PAIR_RE [x; y]) eqn:E.
     + apply quoted_pair_first in E. subst x.
-      rewrite !memb_cons. rewrite IH by (simpl in Hl; lia).
+      rewrite (memb_cons c y), (memb_cons c 92), (memb_cons c y s'), I1.
       destruct (c =? 92) eqn:E2; [apply N.eqb_eq in E2; congruence|]. reflexivity.
-    + rewrite memb_cons, (memb_cons c x). rewrite IH by (simpl in Hl; lia). reflexivity.
+    + rewrite (memb_cons c x), (memb_cons c x (y :: s')), I2. reflexivity.
 Qed.
 
 Lemma memb_unescape c s : c <> 92 -> memb c (unescape s) = memb c s.
@@ -251,11 +256,13 @@ Proof.
     rewrite (list_quoting_blocks raw cs xfh_hop_ok_good Hmm) in Hc. discriminate.
   - apply blk_proto_ok in E3 as [[_ Hx]|(v & u & _ & Hv & _)]; [congruence|].
     apply single_value_ok_good in Hv as [G1 G2].
-    rewrite (header_or_empty_env _ _ e (K2 _ ltac:(keq) ltac:(keq))) in G1, G2. destruct Hc; congruence.
+    assert (Kp : lookup k_xfproto (env s2) = lookup k_xfproto e) by (apply K2; keq).
+    rewrite (header_or_empty_env _ _ e Kp) in G1, G2. destruct Hc; congruence.
   - apply blk_port_ok in E4 as [[_ Hx]|(v & u & _ & Hv & _)]; [congruence|].
     apply single_value_ok_good in Hv as [G1 G2].
     rewrite (blk_proto_env _ _ _ E3) in G1, G2.
-    rewrite (header_or_empty_env _ _ e (K2 _ ltac:(keq) ltac:(keq))) in G1, G2. destruct Hc; congruence.
+    assert (Kp : lookup k_xfport (env s2) = lookup k_xfport e) by (apply K2; keq).
+    rewrite (header_or_empty_env _ _ e Kp) in G1, G2. destruct Hc; congruence.
   - assert (Hl5 : lookup k_fwd (env s5) = Some raw).
     { apply blk_by_ok in E5 as (-> & _). rewrite (blk_port_env _ _ _ E4), (blk_proto_env _ _ _ E3), K2 by keq. exact Hl. }
     unfold blk_fwd_get in E6. rewrite Ht in E6.
